@@ -25,7 +25,10 @@ RULE = ('number families, each enumerated completely: (digits) every double m x 
         'parser / stringNew calls whose texts or values collide when normalised (1, 1.0, true, "1", " 1", -0.0 ...), each call checked '
         'by its own oracle, so that nothing remembered between calls can go unnoticed; non-trivial when a and b are different calls. '
         '(grouping) both parsers on every short string over 0 1 9 , . - and over 1 0 apostrophe thin-space NBSP comma: a grouping '
-        'character inside the text makes it not a number; non-trivial when the text has a digit and a grouping character.')
+        'character inside the text makes it not a number; non-trivial when the text has a digit and a grouping character. (failhist) for every '
+        'stringifying consumer (arrayJoin, stringNew, systemLog, script concatenation, arrayJoin in a script) a call that fails part-way on an '
+        'array holding good numbers and an element that cannot be stringified ([inf], [nan], circular array/object), then ordinary calls of every '
+        'consumer on pool numbers whose texts must still round-trip; also ok, fail, ok; non-trivial when the failing call did fail.')
 ASSUMPTIONS = [
     'IEEE-754 binary64 floats; math.ldexp, math.nextafter and struct are exact (used to build doubles and compare bits)',
     "float('<m>e<e>') is only used to *pick* the doubles of the digits family; the oracle never uses float(str)",
@@ -655,6 +658,135 @@ def fam_grouping(arg):
     return acc.result()
 
 
+# ---------------------------------------------------------------------------------------------------------------------
+# a FAILED stringification must leave nothing behind
+
+
+CONSUMERS = ['arrayJoin', 'stringNew', 'systemLog', 'concat', 'arrayJoin-script']
+POISONS = ['[inf]', '[nan]', '[-inf]', 'circular-array', '{a: inf}', 'circular-object', 'control [1e308]']
+POISON_SHAPES = ['good-good-bad', 'good-bad-good']
+FAIL_HISTS = ['F-O', 'O-F-O']
+FAIL_POOL = [0.5, 1.0, -0.0, 7, 1e21, 1e-7, 123456789.125, 5e-324, 1.5e16, 100.0, -2.5, 2 ** 53]
+
+
+def build_poison(kind, shape):
+    """An array whose stringification fails part-way: good numbers, then an element that cannot be stringified."""
+    if kind == '[inf]':
+        bad = [float('inf')]
+    elif kind == '[nan]':
+        bad = [float('nan')]
+    elif kind == '[-inf]':
+        bad = [1, float('-inf')]
+    elif kind == 'circular-array':
+        bad = [1]
+        bad.append(bad)
+    elif kind == '{a: inf}':
+        bad = {'a': float('inf')}
+    elif kind == 'circular-object':
+        bad = {}
+        bad['a'] = bad
+    else:
+        bad = [1e308]             # control: stringifies fine, so the "failing" call succeeds (a trivial case)
+    return [7, 0.25, bad] if shape == 'good-good-bad' else [7, bad, 3]
+
+
+def consume(consumer, value):
+    """Stringify `value` with one consumer -> text (exceptions propagate)."""
+    im = impl()
+    if 'fh_concat' not in im:
+        im['fh_concat'] = im['bs'].parse_script("return '' + xx")
+        im['fh_join'] = im['bs'].parse_script("return arrayJoin(xx, ',')")
+    if consumer == 'arrayJoin':
+        return im['F']['arrayJoin']([value, ','], None)
+    if consumer == 'stringNew':
+        return im['F']['stringNew']([value], None)
+    if consumer == 'systemLog':
+        logs = []
+        im['F']['systemLog']([value], {'logFn': logs.append})
+        return logs[0] if len(logs) == 1 else logs
+    if consumer == 'concat':
+        return im['bs'].execute_script(im['fh_concat'], {'globals': {'xx': value}})
+    return im['bs'].execute_script(im['fh_join'], {'globals': {'xx': value}})
+
+
+def ok_call(consumer, x, y, case, acc, step):
+    """An ordinary call on pool numbers; every number text obtained must denote its number and parse back to it."""
+    joins = consumer in ('arrayJoin', 'arrayJoin-script')
+    try:
+        out = consume(consumer, [x, y] if joins else x)
+    except Exception as exc:  # pylint: disable=broad-exception-caught
+        out = ('raise', type(exc).__name__)
+    acc.evals += 1
+    c2 = dict(case, step=step, numbers=[repr(x), repr(y)] if joins else [repr(x)], text=out)
+    if not isinstance(out, str):
+        acc.violation(c2, 'a text', out, f'{consumer} of finite numbers did not produce a text')
+        return False
+    parts = out.split(',') if joins else [out]
+    wants = [x, y] if joins else [x]
+    if len(parts) != len(wants):
+        acc.violation(c2, f'{len(wants)} number texts', out, f'{consumer} of {len(wants)} numbers does not consist of {len(wants)} number texts')
+        return False
+    for part, want in zip(parts, wants):
+        p = nt.parse_decimal(part)
+        val = nt.decimal_to_double(p) if p is not None else None
+        if p is None or val is nt.OVERFLOW or not same_number(val, want):
+            acc.violation(c2, want, part, f'the text {consumer} produced for a number does not denote that number')
+            return False
+        back = impl()['F']['numberParseFloat']([part], None)
+        acc.evals += 1
+        if not same_number(back, want):
+            acc.violation(c2, want, back, 'numberParseFloat(text(x)) is not x')
+            return False
+        if want == math.floor(want) and p['dot'] and (set(p['frac']) <= {'0'} or abs(want) < 1e16):
+            acc.violation(c2, 'an integral value without a decimal point', part, 'an integral value prints with a decimal point / all-zero fraction')
+            return False
+    return True
+
+
+def check_failhist(case, acc):
+    """F-O: failing call (consumer c1 on a poisoned array), then an ordinary call (consumer c2 on pool numbers), round trip.
+    O-F-O: ordinary call, failing call, the same ordinary call again."""
+    c1, c2 = CONSUMERS[case['c1']], CONSUMERS[case['c2']]
+    x = FAIL_POOL[case['x']]
+    y = FAIL_POOL[(case['x'] + 5) % len(FAIL_POOL)]
+    if case['hist'] == 'O-F-O' and not ok_call(c2, x, y, case, acc, 'before'):
+        return ('bad',)
+    poison = build_poison(POISONS[case['poison']], POISON_SHAPES[case['shape']])
+    try:
+        out = consume(c1, poison)
+        failed = 'text' if isinstance(out, str) else 'null'
+    except Exception as exc:  # pylint: disable=broad-exception-caught
+        failed = 'raise ' + type(exc).__name__
+    acc.evals += 1
+    del poison
+    ok = ok_call(c2, x, y, case, acc, 'after the failing call')
+    if ok:
+        ok_call(c1 if c1 != 'concat' else 'stringNew', y, x, case, acc, 'second call after the failing call')
+    return (failed, c1)
+
+
+def failhist_cases(c1_poison_pairs):
+    for c1, poison in c1_poison_pairs:
+        for shape in range(len(POISON_SHAPES)):
+            for hist in FAIL_HISTS:
+                for c2 in range(len(CONSUMERS)):
+                    for x in range(len(FAIL_POOL)):
+                        yield {'c1': c1, 'poison': poison, 'shape': shape, 'hist': hist, 'c2': c2, 'x': x}
+
+
+def fam_failhist(arg):
+    _tier, pairs = arg
+    acc = Acc('failhist')
+    for case in failhist_cases(pairs):
+        acc.cases += 1
+        obs = check_failhist(case, acc)
+        acc.outcome(obs)
+        if obs[0] != 'text' and obs[0] != 'bad':
+            acc.nontrivial += 1          # the call that should fail did fail
+    acc.sample({'history': [f'{CONSUMERS[pairs[0][0]]}({POISON_SHAPES[0]} with {POISONS[pairs[0][1]]})', 'arrayJoin([0.5, 1e-07], ",")', 'round trip']})
+    return acc.result()
+
+
 def _prefix_shards(nsym, nshards):
     prefixes = list(itertools.product(range(nsym), repeat=2))
     return split(prefixes, nshards)
@@ -708,9 +840,14 @@ def families(tier):
                f'numberParseFloat, numberParseInt radix 10 and default radix on every string of length <= {GROUP_LEN[tier][0]} over 0 1 9 , . - and of '
                f"length <= {GROUP_LEN[tier][1]} over 1 0 ' U+2009 U+00A0 , (text with a grouping character inside is not a number: null)",
                expected=(_nstrings(6, GROUP_LEN[tier][0]) + _nstrings(6, GROUP_LEN[tier][1])) * 3),
+        Family('failhist', fam_failhist,
+               [(tier, ps) for ps in split([(c1, po) for c1 in range(len(CONSUMERS)) for po in range(len(POISONS))], 35)],
+               f'failing stringification then ordinary stringification: consumer {CONSUMERS} x poisoned array ({POISONS} x {POISON_SHAPES}) x history '
+               f'{FAIL_HISTS} x following consumer {CONSUMERS} x {len(FAIL_POOL)} pool numbers; each case runs in this fixed order in one process',
+               expected=5 * 7 * 2 * 2 * 5 * 12),
     ]
     # the self-contained call histories first (their violations replay on their own)
-    return fams[-3:-1] + fams[:-3] + fams[-1:]
+    return fams[-1:] + fams[-4:-2] + fams[:-4] + fams[-2:-1]
 
 
 def _replay_number(case, acc):
@@ -718,7 +855,7 @@ def _replay_number(case, acc):
 
 
 _CHECKS = {'digits': _replay_number, 'pow2': _replay_number, 'bits': _replay_number, 'ints': _replay_number,
-           'pfloat': check_pfloat, 'pint': check_pint, 'pscript': check_pscript, 'radix': check_pint, 'memo': check_memo, 'grouping': check_grouping}
+           'pfloat': check_pfloat, 'pint': check_pint, 'pscript': check_pscript, 'radix': check_pint, 'memo': check_memo, 'grouping': check_grouping, 'failhist': check_failhist}
 
 
 def replay(family, case):
